@@ -112,6 +112,7 @@ func TestVerifReplay(t *testing.T) {
 			continue
 		}
 		vReplay, vReplayPos, vExhausted, vFailed, vReached = c.Values, 0, false, nil, nil
+		vResetGlobals() // the engine starts every path from the initial globals
 		panicMsg := ""
 		assumeFailed := false
 		func() {
